@@ -540,6 +540,10 @@ class Interp:
             raise Undecided("unevaluated const %s" % op.get("text"))
         if t["k"] == "tuple" and not t["elems"]:
             return vunit()
+        if t["k"] == "ref" and fr.crate.types[t["inner"]]["k"] == "str":
+            cell = ("K", op.get("text", ""))
+            st.heap[cell] = ("str", op.get("text", ""))
+            return vref(Target(cell))
         if t["k"] == "adt":
             return ("zst", t["adt"])
         if t["k"] in ("fndef", "closure"):
